@@ -4,7 +4,10 @@ use crate::{
     source::OwnedDirEntry,
     utils::{HashMap, HashSet, OwnedKey},
 };
+#[cfg(not(kani))]
 use std::{collections::hash_map::Entry, hash};
+#[cfg(kani)]
+use {crate::utils::model_collections::Entry, std::hash};
 
 trait Key {
     fn as_borrowed(&self) -> BorrowedDependency<'_>;
@@ -187,3 +190,6 @@ impl TopologicalSort {
         self.0.into_iter().rev()
     }
 }
+
+#[cfg(kani)]
+include!(concat!(env!("ASSETS_MANAGER_VERIF"), "/incrate/hot_reloading_dependencies.rs"));
